@@ -22,6 +22,7 @@ import (
 type icState struct {
 	flags string // sorted "name=T;name=F" over bool locals (by declaration order index)
 	open  bool   // the scanner holds a contour with segments that is not closed back to its first point
+	stale bool   // the remembered first point was overwritten while the scanner still held the open contour it belonged to
 }
 
 type icInterp struct {
@@ -143,8 +144,12 @@ func (it *icInterp) call(call *ast.CallExpr, s icState) icState {
 			it.viol["a new contour is started (Start) while the previous sub-path is open: scanx does not close contours, the open sub-path is filled wrongly or not at all"] = call.Pos()
 		}
 		s.open = false
+		s.stale = false
 	case "Line":
-		if len(call.Args) == 1 && (it.mentionsFirst(call.Args[0]) || it.inClose) {
+		if len(call.Args) == 1 && it.mentionsFirst(call.Args[0]) && s.stale && s.open && !it.inClose {
+			it.viol["the line that should close the open sub-path goes to a remembered first point that was already overwritten with the start of the next sub-path: the contour stays open and leaks paint outside the filled region"] = call.Pos()
+			s.open = true
+		} else if len(call.Args) == 1 && (it.mentionsFirst(call.Args[0]) || it.inClose) {
 			s.open = false // a line back to the sub-path's first point (the close record carries it)
 		} else {
 			s.open = true
@@ -180,6 +185,9 @@ func (it *icInterp) stmt(st ast.Stmt, in map[icState]bool) map[icState]bool {
 				for i, l := range x.Lhs {
 					if id, ok := l.(*ast.Ident); ok {
 						o := core.ObjOf(it.info, id)
+						if it.first[o] {
+							s.stale = s.open // overwritten while the contour it belongs to is still open
+						}
 						if _, isBool := it.get(it.set(s, o, "T"), o); isBool {
 							switch it.cond(x.Rhs[i], s) {
 							case 1:
@@ -324,14 +332,23 @@ func E6ImplicitClose(c *core.Ctx, r *core.Report) {
 				if b, ok := o.Type().Underlying().(*types.Basic); ok && b.Kind() == types.Bool && x.Tok == token.DEFINE {
 					it.bools = append(it.bools, o)
 				}
-				if isNamed(o.Type(), "tdewolff/canvas", "Point") && len(x.Lhs) == len(x.Rhs) {
-					// Point{A.d[i+1], A.d[i+2]} assigned inside the MoveTo case
-					if cl, ok := core.Unparen(x.Rhs[i]).(*ast.CompositeLit); ok && len(cl.Elts) == 2 {
-						ie, _, ok1 := dataIndex(info, core.Unparen(cl.Elts[0]))
-						if ok1 {
-							if _, k, ok := linForm(info, ie.Index); ok && k == 1 && inCaseOf(info, fd, x, "MoveToCmd") {
-								it.first[o] = true
+				if len(x.Lhs) == len(x.Rhs) && (inCaseOf(info, fd, x, "MoveToCmd") || underCmdEq(info, fd, x, it.cmdObj, "MoveToCmd")) {
+					// a local assigned, for a MoveTo, from both coordinates of its record (A.d[i+1], A.d[i+2]) —
+					// as a Point or already converted to the scanner's fixed-point pixels
+					seen := map[int]bool{}
+					ast.Inspect(x.Rhs[i], func(k ast.Node) bool {
+						if e, ok := k.(ast.Expr); ok {
+							if ie, _, ok1 := dataIndex(info, core.Unparen(e)); ok1 {
+								if _, kk, ok := linForm(info, ie.Index); ok {
+									seen[kk] = true
+								}
 							}
+						}
+						return true
+					})
+					if seen[1] && seen[2] {
+						if _, isBasic := o.Type().Underlying().(*types.Basic); !isBasic {
+							it.first[o] = true
 						}
 					}
 				}
@@ -399,13 +416,31 @@ func E6ImplicitClose(c *core.Ctx, r *core.Report) {
 	if len(vs) == 0 {
 		r.OK("E6.implicit-close", "canvas.Path.ToScanxScanner|open sub-path closed before the next Start", c.Pos(loop.Pos()), fmt.Sprintf("%d reachable states", len(all)))
 	} else {
-		r.Fail("E6.implicit-close", "canvas.Path.ToScanxScanner|open sub-path closed before the next Start", c.Pos(it.viol[vs[0]]), vs[0])
+		r.Fail("E6.implicit-close", "canvas.Path.ToScanxScanner|open sub-path closed before the next Start", c.Pos(it.viol[vs[len(vs)-1]]), strings.Join(vs, " | "))
 	}
 	if !openAtExit {
 		r.OK("E6.implicit-close", "canvas.Path.ToScanxScanner|open sub-path closed at the end", c.Pos(fd.End()), "")
 	} else {
 		r.Fail("E6.implicit-close", "canvas.Path.ToScanxScanner|open sub-path closed at the end", c.Pos(fd.End()), "the function can return while the scanner holds an open contour: the last sub-path, if not closed by the path itself, is not closed back to its first point and the rasterizer fills nothing for it")
 	}
+}
+
+// underCmdEq reports whether node n lies in the body of an `if` whose condition is exactly `cmd == K`.
+func underCmdEq(info *types.Info, fd *ast.FuncDecl, n ast.Node, cmdObj types.Object, k string) bool {
+	found := false
+	ast.Inspect(fd.Body, func(m ast.Node) bool {
+		is, ok := m.(*ast.IfStmt)
+		if !ok || !(is.Body.Pos() <= n.Pos() && n.End() <= is.Body.End()) {
+			return true
+		}
+		if be, ok := core.Unparen(is.Cond).(*ast.BinaryExpr); ok && be.Op == token.EQL {
+			if id, ok := core.Unparen(be.X).(*ast.Ident); ok && core.ObjOf(info, id) == cmdObj && core.ConstName(info, be.Y) == k {
+				found = true
+			}
+		}
+		return true
+	})
+	return found
 }
 
 // inCaseOf reports whether node n lies inside a `case K` clause (of any switch) in fd.
